@@ -272,8 +272,33 @@ func IsCompositeCharClassPattern(re *syntax.Regexp) bool {
 }
 
 // isValidCompositePart checks if a sub-expression is valid for composite searcher.
+// compositePartClass returns the character class a composite part repeats (nil if it has none).
+func compositePartClass(re *syntax.Regexp) *syntax.Regexp {
+	if re.Op == syntax.OpCharClass {
+		return re
+	}
+	if len(re.Sub) == 1 && re.Sub[0].Op == syntax.OpCharClass {
+		return re.Sub[0]
+	}
+	return nil
+}
+
 func isValidCompositePart(re *syntax.Regexp) bool {
 	if re == nil {
+		return false
+	}
+
+	// The searcher takes the longest run of every part first (greedy backtracking), reads the
+	// haystack byte by byte and encodes "unbounded" as maxMatch == 0. It therefore cannot
+	// execute a non-greedy quantifier ([a-z]+[0-9]+?), a {0}/{0,0} part (which must match
+	// nothing, not everything) or a class with members above U+007F (multi-byte in UTF-8).
+	if re.Flags&syntax.NonGreedy != 0 {
+		return false
+	}
+	if re.Op == syntax.OpRepeat && re.Max == 0 {
+		return false
+	}
+	if cc := compositePartClass(re); cc != nil && len(cc.Rune) > 0 && cc.Rune[len(cc.Rune)-1] > 0x7F {
 		return false
 	}
 
